@@ -343,9 +343,59 @@ def norm(a, b):
     return a, b
 
 
+def layoff_trap(rng):
+    """knocker melds and a defender hand built around a card that fits BOTH a knocker set and the end of a knocker run of its
+    suit, with one or two cards chained behind it on the run (laying the card on the set strands them): returns
+    (knocker hand, knocker melds, defender hand) or None"""
+    s = rng.choice(gin.SU)
+    others = [x for x in gin.SU if x != s]
+    up = rng.random() < 0.5
+    r = rng.randrange(4, 11)                       # value of the dual-fit card (4..10)
+    card = lambda v, su: gin.R[v] + su
+    X = card(r, s)
+    if up:
+        run = [card(r - 3, s), card(r - 2, s), card(r - 1, s)]
+        chain = [card(r + 1, s)] + ([card(r + 2, s)] if rng.random() < 0.5 else [])
+    else:
+        run = [card(r + 1, s), card(r + 2, s), card(r + 3, s)]
+        chain = [card(r - 1, s)] + ([card(r - 2, s)] if r - 2 >= 1 and rng.random() < 0.5 else [])
+    kset = [card(r, su) for su in others]
+    used = set(run + kset + chain + [X])
+    # a third meld of low cards in another suit and one low card of deadwood
+    s3 = rng.choice(others)
+    third = [c for c in (card(1, s3), card(2, s3), card(3, s3))]
+    if used & set(third):
+        return None
+    used |= set(third)
+    lows = [c for c in gin.CARDS if c not in used and gin.RV[c[0]] <= 5]
+    if not lows:
+        return None
+    dwc = rng.choice(lows); used.add(dwc)
+    kh = run + kset + third + [dwc]
+    pool = [c for c in gin.CARDS if c not in used]
+    rest = rng.sample(pool, 10 - 1 - len(chain))
+    dh = [X] + chain + rest
+    rng.shuffle(dh)
+    melds = [list(run), list(kset), list(third)]
+    rng.shuffle(melds)
+    for m in melds:
+        rng.shuffle(m)
+    return kh, melds, dh
+
+
 def knock_scenario(rng):
     """a gin rummy game at the knock decision, built for lay-offs: the knocker's melds come from a dense sub-deck, the
     defender holds ten cards of the same ranks (cards that fit a set AND a run of the knocker, chains behind them)"""
+    if rng.random() < 0.4:
+        t = layoff_trap(rng)
+        if t is not None:
+            kh, opp, dh = t
+            others = [c for c in gin.CARDS if c not in kh and c not in dh]
+            rng.shuffle(others)
+            p1k = rng.random() < 0.5
+            return {"variant": "rummy", "max_turns": None, "deck": others[1:], "discard": [others[0]],
+                    "p1": kh if p1k else dh, "p2": dh if p1k else kh, "turn": "p1-may-knock" if p1k else "p2-may-knock",
+                    "shuffle": [0, 0], "ops": [{"k": "knock", "knocks": True, "melds": opp}]}
     for _ in range(60):
         ranks = rng.sample("A23456789TJQK", rng.choice([5, 6, 7]))
         sub = [r + s for r in ranks for s in gin.SU]
@@ -692,6 +742,11 @@ class C12(Prop):
 
     def generate(self, rng, tier, shard):
         while True:
+            if rng.random() < 0.1:
+                t = layoff_trap(rng)
+                if t is not None:
+                    yield {"hand": t[2], "opp": t[1], "stop": rng.random() < 0.5, "pos": rng.random() < 0.5}
+                    continue
             ranks = rng.sample("A23456789TJQK", rng.choice([5, 6, 7, 13]))
             if rng.random() < 0.3:
                 ranks = list("A2345JQK") if rng.random() < 0.5 else list("A23QK789")
